@@ -291,7 +291,9 @@ def run_case(case, out):
                 for of in order_flags:
                     of[0] = False               # only the first start fails
                 if deep.started and not was:
-                    if case.get('update'):
+                    if case.get('update') and any(st0['op'] == 'shutdown' and st0['was_started'] for st0 in states):
+                        pass        # a second life (only possible when start is not refused): nothing to wait for
+                    elif case.get('update'):
                         # the first poll answered UPDATE: wait until the update task has installed the tracepoint
                         t0 = time.time()
                         while not handler._tp_config and time.time() - t0 < 20:
